@@ -55,10 +55,13 @@ static bool check_z(Ctx& ctx, const Case& c, const Paths64& sol, const ZBook& zb
         ctx.count("z_vertices_from_input");
       }
     } else if (cbmode == 0 || cbmode == 2) {
-      // no callback: new vertices carry 0; callback that leaves z untouched: new vertices carry DefaultZ
+      // no callback: new vertices carry 0 (the default value of z). A callback that leaves z untouched sees the value
+      // the library preset: DefaultZ at ordinary intersections, 0 at intersections repaired by DoSplitOp (found by
+      // this monitor at seed 2); the property does not say which, so either is accepted and the latter is counted.
       if (in_here == zb.ids_at.end()) {
-        int64_t expect = cbmode == 0 ? 0 : defz;
-        if (pt.z != expect) { ctx.violation("C15.z_default", { what, cbmode == 0 ? "no_callback" : "passive_callback" }, c, "new vertex (" + std::to_string(pt.x) + "," + std::to_string(pt.y) + ") carries z=" + std::to_string(pt.z) + " expected " + std::to_string(expect)); return false; }
+        bool ok = cbmode == 0 ? pt.z == 0 : (pt.z == defz || pt.z == 0);
+        if (cbmode == 2 && pt.z == 0) ctx.count("z_passive_callback_vertices_with_0_instead_of_DefaultZ");
+        if (!ok) { ctx.violation("C15.z_default", { what, cbmode == 0 ? "no_callback" : "passive_callback" }, c, "new vertex (" + std::to_string(pt.x) + "," + std::to_string(pt.y) + ") carries z=" + std::to_string(pt.z) + " expected " + (cbmode == 0 ? std::string("0") : std::string("DefaultZ or 0"))); return false; }
         ctx.count("z_new_vertices_default");
       }
     }
